@@ -63,6 +63,11 @@ type Run struct {
 	// EvidenceTargets, when set, chooses the validators to forge evidence against before block n.
 	EvidenceTargets func(r *Run, st *state.StateDB, n uint64) []common.Address
 
+	// Scope, when set, restricts what this run reports: a failure whose class is out of scope
+	// (the subject of another property's check, which runs the same chains) ends the case and is
+	// counted, not reported.
+	Scope func(class string) bool
+
 	Periods    int
 	txOutcomes map[string]int
 	sigParts   map[string]bool
@@ -110,13 +115,21 @@ func (r *Run) Close() {
 
 // Violation reports and marks the case as to be stopped.
 func (r *Run) Violation(class, msg string, witness interface{}) {
-	r.C.Violation(class, msg, witness)
 	r.stopped = true
+	if r.Scope != nil && !r.Scope(class) {
+		r.C.Count("chains_ended_by_out_of_scope_failure", 1)
+		r.C.Note("out-of-scope failure ended a chain: " + class)
+		return
+	}
+	r.C.Violation(class, msg, witness)
 }
 
 // Known reports a violation of a class after which the run can go on (the monitor has accounted
 // for its effect exactly).
 func (r *Run) Known(class, msg string, witness interface{}) {
+	if r.Scope != nil && !r.Scope(class) {
+		return
+	}
 	r.C.Violation(class, msg, witness)
 }
 
